@@ -1,46 +1,15 @@
 (* Correspondence and monitor for C12, evaluated on cases written by harness/props/c12.py. *)
 From Coq Require Import ZArith NArith List Bool Arith.
 Import ListNotations.
-From HV Require Export lib.Harness model.Export spec.ExportS.
+From HV Require Export lib.Harness model.Export model.ExportNum spec.ExportS spec.ExportCanon.
 Open Scope Z_scope.
 
 (* a case: the HUGR as read through the public API, what Hugr.to_model() returned (None = raised),
-   whether the generator claims the HUGR is a valid module *)
-Inductive case := CExport (h : hugr) (obs : option (eregion N N)) (expect_valid : bool).
+   whether the generator claims the HUGR is a valid module, and (for the numbering diagnostic only) the
+   number each interned link name spells *)
+Inductive case := CExport (h : hugr) (obs : option (eregion N N)) (expect_valid : bool) (nm : list (N * N)).
 
-(* ---- comparison up to renaming: every link name / symbol is replaced by the position of its first
-   occurrence in a fixed traversal *)
-Section Canon.
-  Context {L Sy : Type} (leqb : L -> L -> bool) (seqb : Sy -> Sy -> bool).
-  Definition op_syms (o : eop Sy) : list Sy :=
-    match o with
-    | ODefFunc s | ODeclFunc s | ODefAlias s | ODeclAlias s | OCall s | OLoadFunc s => [s]
-    | _ => []
-    end.
-  Fixpoint names_node (e : enode L Sy) : list L :=
-    match e with
-    | ENode _ _ i o regs _ _ =>
-        i ++ o ++ flat_map (fun r => match r with
-                                     | ERegion _ s t ch _ => s ++ t ++ flat_map names_node ch
-                                     end) regs
-    end.
-  Fixpoint syms_node (e : enode L Sy) : list Sy :=
-    match e with
-    | ENode op _ _ _ regs _ _ =>
-        op_syms op ++ flat_map (fun r => match r with
-                                         | ERegion _ _ _ ch _ => flat_map syms_node ch
-                                         end) regs
-    end.
-  Fixpoint rank {A} (eqb : A -> A -> bool) (x : A) (l : list A) : nat :=
-    match l with [] => 0%nat | y :: r => if eqb x y then 0%nat else S (rank eqb x r) end.
-  Definition canon (m : eregion L Sy) : eregion nat nat :=
-    match m with
-    | ERegion _ s t ch _ =>
-        let ln := s ++ t ++ flat_map names_node ch in
-        let sn := flat_map syms_node ch in
-        map_region (fun x => rank leqb x ln) (fun x => rank seqb x sn) m
-    end.
-End Canon.
+(* ---- comparison up to renaming: spec/ExportCanon.v (canon) *)
 
 Definition op_eqb (a b : eop nat) : bool :=
   match a, b with
@@ -52,7 +21,8 @@ Definition op_eqb (a b : eop nat) : bool :=
   | _, _ => false
   end.
 
-(* hints compare as multisets: the order of region metadata is not promised *)
+(* hints compare as multisets: the order of region metadata is not promised; keys are compared after the
+   per-region renaming of spec/ExportCanon.v (canon_keys): no numbering of keys is promised *)
 Fixpoint node_eqb (a b : enode nat nat) : bool :=
   match a, b with
   | ENode o s i ou r k m, ENode o' s' i' ou' r' k' m' =>
@@ -77,28 +47,34 @@ Fixpoint node_eqb (a b : enode nat nat) : bool :=
 Definition region_eqb (a b : eregion nat nat) : bool :=
   node_eqb (ENode OInvalid 0 [] [] [a] [] []) (ENode OInvalid 0 [] [] [b] [] []).
 
-Definition valid_all (h : hugr) : bool := valid_b h && valid_order_b h && stars_b h.
+(* the guard of the theorems of props/C12.v, all of it: valid_b (clauses 1-5, 7), valid_order_b and
+   order_ports_b (clause 6), stars_b (clause 4), cfg_entries_b (totality: with valid_b the export raises
+   exactly when this fails, C12_export_total_iff) *)
+Definition valid_all (h : hugr) : bool :=
+  valid_b h && valid_order_b h && stars_b h && order_ports_b h && cfg_entries_b h.
 
 (* correspondence: the implementation's module equals the model's up to renaming (and both fail
    together); a HUGR the generator built as a valid module meets the guard of the theorems *)
 Definition corr (c : case) : bool :=
   match c with
-  | CExport h obs ev =>
+  | CExport h obs ev _ =>
       implb ev (valid_all h) &&
       match to_model h, obs with
       | None, None => true
       | Some m, Some o =>
-          region_eqb (canon port_eqb Z.eqb m) (canon N.eqb N.eqb o) &&
-          (* the clauses that are not (fully) theorems are also evaluated on the model's module *)
+          region_eqb (canon_full port_eqb Z.eqb m) (canon_full N.eqb N.eqb o) &&
+          (* clause 6 (a theorem since the second pass) stays evaluated on the model's module *)
           (if valid_all h then order_hints_complete_and_keyed h m else true)
       | _, _ => false
-      end
+      end &&
+      (* totality (C12_export_total): under the guard the model does not fail *)
+      (if valid_all h then match to_model h with Some _ => true | None => false end else true)
   end.
 
 (* monitor: the specification evaluated on what the implementation returned *)
 Definition mon (c : case) : bool :=
   match c with
-  | CExport h obs ev =>
+  | CExport h obs ev _ =>
       if valid_all h
       then match obs with Some o => spec_b N.eqb N.eqb h o | None => false end
       else true
@@ -107,7 +83,7 @@ Definition mon (c : case) : bool :=
 (* diagnostic: which clause fails (1..7), 0 = none, 8 = export raised *)
 Definition clause (c : case) : nat :=
   match c with
-  | CExport h obs ev =>
+  | CExport h obs ev _ =>
       if negb (valid_all h) then 9%nat else
       match obs with
       | None => 8%nat
@@ -126,7 +102,7 @@ Definition clause (c : case) : nat :=
 (* per-clause monitors, used by the harness to classify a failure *)
 Definition on_obs (f : hugr -> eregion N N -> bool) (c : case) : bool :=
   match c with
-  | CExport h (Some o) _ => if valid_all h then f h o else true
+  | CExport h (Some o) _ _ => if valid_all h then f h o else true
   | _ => true
   end.
 Definition k1 := on_obs (fun h o => regions_mirror_hierarchy h o).
@@ -136,3 +112,31 @@ Definition k4 := on_obs (fun h o => single_producer_or_single_consumer N.eqb h o
 Definition k5 := on_obs (fun h o => applied_symbols_defined N.eqb h o).
 Definition k6 := on_obs (fun h o => order_hints_complete_and_keyed h o).
 Definition k7 := on_obs (fun h o => metadata_carried h o).
+
+(* which part of the guard a case meets (reported per run by the harness: how many generated modules
+   satisfy the guard of which theorem) *)
+Definition on_h (f : hugr -> bool) (c : case) : bool := match c with CExport h _ _ _ => f h end.
+Definition g_valid := on_h valid_b.
+Definition g_order := on_h valid_order_b.
+Definition g_ports := on_h order_ports_b.
+Definition g_stars := on_h stars_b.
+Definition g_cfg := on_h cfg_entries_b.
+Definition g_hints := on_h valid_hints_b.
+Definition g_total := on_h valid_total_b.
+Definition g_all := on_h valid_all.
+Definition g_noerr := on_h (fun h => negb (export_err h)).
+
+(* diagnostic, never an alarm: does the implementation spell exactly the first-use numbers of
+   model/ExportNum.v (same tree traversal, names compared as numbers)?  corr compares up to renaming, so
+   a harmless change of the numbering scheme only changes this count. *)
+Definition region_names {L Sy} (m : eregion L Sy) : list L :=
+  match m with ERegion _ s t ch _ => s ++ t ++ flat_map names_node ch end.
+Definition lookupN (nm : list (N * N)) (x : N) : N :=
+  match find (fun p => N.eqb (fst p) x) nm with Some p => snd p | None => 4294967295%N end.
+Definition g_numexact (c : case) : bool :=
+  match c with
+  | CExport h (Some o) _ nm =>
+      valid_all h &&
+      list_eqb N.eqb (map (lookupN nm) (region_names o)) (map N.of_nat (region_names (export_numbered h)))
+  | _ => false
+  end.
